@@ -31,6 +31,12 @@ pub fn shadow_optimum(s: &SPDC) -> Value {
   }
   let cs = s.crystal_setup.clone();
   let te = guarded_loc(|| *(signal.theta_external(&cs) / RAD));
+  let mut args = Map::new();
+  args.insert("snell_ext".into(), args_snell_ext(&signal, &cs));
+  args.insert("dkz0".into(), args_dkz0(&signal, &s.pump, &cs));
+  if let Ok(x) = &te {
+    args.insert("nm_theta".into(), args_nm_theta(*x, &signal, &s.pump, &cs));
+  }
   orc.insert("snell_ext".into(), match te { Ok(x) if x.is_finite() => fx(x), _ => Value::Null });
   orc.insert("snell_inv".into(), json!([]));
   let mut cs1 = cs.clone();
@@ -59,6 +65,8 @@ pub fn shadow_optimum(s: &SPDC) -> Value {
     }
   }
   let io = outcome(|| IdlerBeam::try_new_optimum(&signal, &s.pump, &cs1, &s.pp));
+  args.insert("idler_theta".into(), args_idler_theta(&signal, &s.pump, &cs1, &s.pp));
+  orc.insert("args".into(), Value::Object(args));
   orc.insert("idler_theta".into(), match &io.3 { Some(b) if (*(b.theta_internal() / RAD)).is_finite() => fx(*(b.theta_internal() / RAD)), _ => Value::Null });
   steps.push(json!({"step": "idler_optimum", "class": io.0, "msg": io.1, "loc": io.2}));
   let mut beams: Vec<Beam> = vec![(*signal).clone(), (*s.idler).clone()];
@@ -107,6 +115,7 @@ fn setup_from(j: &Value) -> Option<SPDC> {
 }
 
 pub fn observe(id: usize, tags: Vec<String>, j: &Value, s: &SPDC, with_spectrum: bool) -> Value {
+  let tags_default = tags.iter().any(|t| t.contains("default_integrator"));
   let o1 = outcome(|| s.clone().try_as_optimum());
   let mut m = Map::new();
   m.insert("kind".into(), json!("opt"));
@@ -140,7 +149,9 @@ pub fn observe(id: usize, tags: Vec<String>, j: &Value, s: &SPDC, with_spectrum:
   if !with_spectrum {
     return Value::Object(m);
   }
-  let integ = Integrator::Simpson { divs: 10 };
+  // one targeted case runs with the library's DEFAULT integrator (what a user gets), the others with Simpson, 10 divisions
+  let integ_default = tags_default;
+  let integ = if integ_default { Integrator::default() } else { Integrator::Simpson { divs: 10 } };
   let sp = guarded_loc(|| {
     let js = s.joint_spectrum(integ);
     let jso = so.joint_spectrum(integ);
@@ -186,7 +197,7 @@ pub fn observe(id: usize, tags: Vec<String>, j: &Value, s: &SPDC, with_spectrum:
       None => (f64::NAN, vec![]),
     };
     json!({
-      "class": "ok", "ref_jsa": fx(ref_jsa), "ref_jsi": fx(ref_jsi), "ref_sing": fx(ref_sing), "rows": rows, "ngrid": npts_grid,
+      "class": "ok", "integrator": if integ_default { "default" } else { "simpson10" }, "ref_jsa": fx(ref_jsa), "ref_jsi": fx(ref_jsi), "ref_sing": fx(ref_sing), "rows": rows, "ngrid": npts_grid,
       "range": {"jsa_n": r_jsa_n.iter().map(|z| cx(*z)).collect::<Vec<_>>(), "jsi_n": fxs(&r_jsi_n), "sing_n": fxs(&r_sing_n),
                 "jsa": r_jsa.iter().map(|z| cx(*z)).collect::<Vec<_>>(),
                 "jsi": fxs(&r_jsi.iter().map(|x| *(*x / one)).collect::<Vec<_>>()),
@@ -230,6 +241,8 @@ fn targeted() -> Vec<(&'static str, Value)> {
   vec![
     ("reference:pp_auto", base(json!(90), ppa.clone(), json!("auto"), 0., false)),
     ("reference:no_pp", base(json!(40), Value::Null, json!("auto"), 2., false)),
+    ("reference:pp_auto:default_integrator", base(json!(90), ppa.clone(), json!("auto"), 0.5, false)),
+    ("reference:counter_propagation:pp_auto", base(json!(90), ppa.clone(), json!("auto"), 0., true)),
     ("explicit_idler:energy_conserving", base(json!(90), ppa.clone(), idl(1550.), 0., false)),
     ("explicit_idler:other_wavelength:pp", base(json!(90), ppa.clone(), idl(1500.), 0., false)),
     ("explicit_idler:other_wavelength:no_pp", base(json!(40), Value::Null, idl(1600.), 1.5, false)),
